@@ -4,6 +4,10 @@
 //           ops:  R|E|F|G|V|C|S <loc> <Lpath>     read, exists, file_exists, directory_exists, resolve, create_dir, subdirectories
 //                 W <loc> <Lpath> <Bpayload>      write
 //                 L <loc> <Lpath> <pat>           list; pat = PA (None) | PX "**/*" | PS "*" | PE<L> "*.<ext>" | PR<L> "**/*.<ext>" | PD<L> "<name>/*"
+//                 TA|TT <loc> <Lpath>             read_archive / read_text_archive: which codec parameters reproduce the helper's result from the bytes `read` returns
+//                 TR <loc> <Lpath> <k>            read_arc (0) fe9_arc (1) tpl (2) bch (3) ctpk (4) cgfx (5): helper result == parser applied to the bytes `read` returns
+//                 WA <loc> <Lpath> <be|le> <Bfile> <Bserialized>       write_archive(BinArchive::from_bytes(file, endian))
+//                 WT <loc> <Lpath> <sjis|utf16> <be|le> <Bfile> <Bserialized>   write_text_archive(TextArchive::from_bytes(file, format, endian))
 // output: segments joined by " ; ": first "new:<result> @ <walk>", then per call "<return value> @ <walk or = if unchanged>".
 use crate::h_fs::*;
 use crate::h_util::*;
@@ -70,6 +74,142 @@ fn show_unit(r: Result<(), LayeredFilesystemError>) -> String {
     match r {
         Ok(()) => "ok".to_string(),
         Err(e) => err_kind(&e),
+    }
+}
+
+pub fn endian_of(t: &str) -> Endian {
+    if t == "be" {
+        Endian::Big
+    } else {
+        Endian::Little
+    }
+}
+
+pub fn tfmt_of(t: &str) -> TextArchiveFormat {
+    if t == "sjis" {
+        TextArchiveFormat::ShiftJIS
+    } else {
+        TextArchiveFormat::Unicode
+    }
+}
+
+fn bin_key(r: &Result<BinArchive, ArchiveError>) -> String {
+    match r {
+        Ok(a) => match a.serialize() {
+            Ok(s) => format!("ok:{}", hex(&s)),
+            Err(_) => "ok:unserializable".to_string(),
+        },
+        Err(_) => "err".to_string(),
+    }
+}
+
+fn text_key(r: &Result<TextArchive, TextArchiveError>) -> String {
+    match r {
+        Ok(a) => {
+            let es: Vec<String> = a.get_entries().iter().map(|(k, v)| format!("{}={}", show_str(k), show_str(v))).collect();
+            format!("ok:{}:[{}]", show_str(a.get_title()), es.join(" "))
+        }
+        Err(_) => "err".to_string(),
+    }
+}
+
+/// read_archive: which endianness reproduces the helper's result from the bytes `read` returns
+fn typed_bin(fsys: &LayeredFilesystem, path: &str, loc: bool) -> String {
+    let r1 = fsys.read_archive(path, loc);
+    match fsys.read(path, loc) {
+        Err(e0) => match r1 {
+            Err(e1) if err_kind(&e1) == err_kind(&e0) => err_kind(&e1),
+            Err(e1) => format!("ta:error-differs-from-read:{}", err_kind(&e1)),
+            Ok(_) => "ta:ok-but-read-failed".to_string(),
+        },
+        Ok(b) => {
+            let k1 = match r1 {
+                Ok(a) => bin_key(&Ok(a)),
+                Err(LayeredFilesystemError::ArchiveError(_)) => "err".to_string(),
+                Err(e) => format!("unexpected:{}", err_kind(&e)),
+            };
+            let mut m: Vec<&str> = Vec::new();
+            if bin_key(&BinArchive::from_bytes(&b, Endian::Big)) == k1 {
+                m.push("be");
+            }
+            if bin_key(&BinArchive::from_bytes(&b, Endian::Little)) == k1 {
+                m.push("le");
+            }
+            format!("ta:{}", m.join("+"))
+        }
+    }
+}
+
+fn typed_text(fsys: &LayeredFilesystem, path: &str, loc: bool) -> String {
+    let r1 = fsys.read_text_archive(path, loc);
+    match fsys.read(path, loc) {
+        Err(e0) => match r1 {
+            Err(e1) if err_kind(&e1) == err_kind(&e0) => err_kind(&e1),
+            Err(e1) => format!("tt:error-differs-from-read:{}", err_kind(&e1)),
+            Ok(_) => "tt:ok-but-read-failed".to_string(),
+        },
+        Ok(b) => {
+            let k1 = match r1 {
+                Ok(a) => text_key(&Ok(a)),
+                Err(LayeredFilesystemError::TextArchiveError(_)) => "err".to_string(),
+                Err(e) => format!("unexpected:{}", err_kind(&e)),
+            };
+            let mut m: Vec<String> = Vec::new();
+            for (fname, f) in [("sjis", TextArchiveFormat::ShiftJIS), ("utf16", TextArchiveFormat::Unicode)] {
+                for (ename, e) in [("be", Endian::Big), ("le", Endian::Little)] {
+                    if text_key(&TextArchive::from_bytes(&b, f, e)) == k1 {
+                        m.push(format!("{}-{}", fname, ename));
+                    }
+                }
+            }
+            format!("tt:{}", m.join("+"))
+        }
+    }
+}
+
+fn tex_key(v: Vec<Texture>) -> String {
+    let mut es: Vec<String> = v.iter().map(|t| format!("{}:{}x{}:{}", show_str(&t.filename), t.width, t.height, hex(&t.pixel_data))).collect();
+    es.sort();
+    es.join(",")
+}
+
+/// the other read helpers: the helper's result equals the parser applied to the bytes `read` returns
+fn typed_other(fsys: &LayeredFilesystem, path: &str, loc: bool, k: u32) -> String {
+    fn map_key<'a, I: Iterator<Item = (&'a String, &'a Vec<u8>)>>(it: I) -> String {
+        let mut es: Vec<String> = it.map(|(n, b)| format!("{}={}", show_str(n), hex(b))).collect();
+        es.sort();
+        es.join(",")
+    }
+    let helper: Result<String, LayeredFilesystemError> = match k {
+        0 => fsys.read_arc(path, loc).map(|m| map_key(m.iter())),
+        1 => fsys.read_fe9_arc(path, loc).map(|m| map_key(m.iter())),
+        2 => fsys.read_tpl_textures(path, loc).map(tex_key),
+        3 => fsys.read_bch_textures(path, loc).map(|m| tex_key(m.into_iter().map(|(_, t)| t).collect())),
+        4 => fsys.read_ctpk_textures(path, loc).map(|m| tex_key(m.into_iter().map(|(_, t)| t).collect())),
+        _ => fsys.read_cgfx_textures(path, loc).map(|m| tex_key(m.into_iter().map(|(_, t)| t).collect())),
+    };
+    match fsys.read(path, loc) {
+        Err(e0) => match helper {
+            Err(e1) if err_kind(&e1) == err_kind(&e0) => err_kind(&e1),
+            Err(e1) => format!("tr:error-differs-from-read:{}", err_kind(&e1)),
+            Ok(_) => "tr:ok-but-read-failed".to_string(),
+        },
+        Ok(b) => {
+            let direct: Result<String, ()> = match k {
+                0 => arc::from_bytes(&b).map(|m| map_key(m.iter())).map_err(|_| ()),
+                1 => fe9_arc::parse(&b).map(|m| map_key(m.iter())).map_err(|_| ()),
+                2 => tpl::Tpl::extract_textures(&b).map(tex_key).map_err(|_| ()),
+                3 => bch::read(&b).map(tex_key).map_err(|_| ()),
+                4 => ctpk::read(&b).map(tex_key).map_err(|_| ()),
+                _ => cgfx::read(&b).map(tex_key).map_err(|_| ()),
+            };
+            match (helper, direct) {
+                (Ok(a), Ok(d)) if a == d => "tr:same-ok".to_string(),
+                (Err(LayeredFilesystemError::FileNotFound(_, _)), _) => "tr:differs".to_string(),
+                (Err(_), Err(())) => "tr:same-err".to_string(),
+                _ => "tr:differs".to_string(),
+            }
+        }
     }
 }
 
@@ -179,6 +319,34 @@ pub fn run(toks: &[&str]) -> String {
                 catch_unwind(AssertUnwindSafe(|| show_list(&fsys, fsys.list(&path, pat.as_deref(), loc)))).unwrap_or_else(|_| "panic".to_string())
             }
             "S" => catch_unwind(AssertUnwindSafe(|| show_list(&fsys, fsys.subdirectories(&path, loc)))).unwrap_or_else(|_| "panic".to_string()),
+            "TA" => catch_unwind(AssertUnwindSafe(|| typed_bin(&fsys, &path, loc))).unwrap_or_else(|_| "panic".to_string()),
+            "TT" => catch_unwind(AssertUnwindSafe(|| typed_text(&fsys, &path, loc))).unwrap_or_else(|_| "panic".to_string()),
+            "TR" => {
+                let k: u32 = toks[i + 3].parse().unwrap();
+                used = 4;
+                catch_unwind(AssertUnwindSafe(|| typed_other(&fsys, &path, loc, k))).unwrap_or_else(|_| "panic".to_string())
+            }
+            "WA" => {
+                let e = endian_of(toks[i + 3]);
+                let file = parse_b(toks[i + 4]);
+                used = 6;
+                catch_unwind(AssertUnwindSafe(|| match BinArchive::from_bytes(&file, e) {
+                    Ok(a) => show_unit(fsys.write_archive(&path, &a, loc)),
+                    Err(_) => "BAD-ARCHIVE".to_string(),
+                }))
+                .unwrap_or_else(|_| "panic".to_string())
+            }
+            "WT" => {
+                let f = tfmt_of(toks[i + 3]);
+                let e = endian_of(toks[i + 4]);
+                let file = parse_b(toks[i + 5]);
+                used = 7;
+                catch_unwind(AssertUnwindSafe(|| match TextArchive::from_bytes(&file, f, e) {
+                    Ok(a) => show_unit(fsys.write_text_archive(&path, &a, loc)),
+                    Err(_) => "BAD-ARCHIVE".to_string(),
+                }))
+                .unwrap_or_else(|_| "panic".to_string())
+            }
             x => panic!("fs: bad op {}", x),
         };
         i += used;
